@@ -43,6 +43,16 @@ def gen_common(seed, tier, index, profile_choices=('mixed', 'churn', 'objects', 
     for c in range(nconn if not deep else 0):
         per.append(L.gen_conn_intents(seed, c, max(2, total // nconn), rng.choice(profile_choices)))
     intents = L.interleave(rng, per)
+    if deep_ok and index % 9 == 4:
+        # ill-formed on purpose (a log that starts late / a stray line): a few messages on client ids nothing has created yet,
+        # which the allocator hands out later - everything about the real objects must be as if those lines were not there
+        r5 = random.Random('%d/stray' % seed)
+        out = []
+        for it in intents:
+            if it[0] == 'act' and r5.random() < 0.08:
+                out.append(['act', it[1], 'orphan_future', r5.randrange(1 << 30), r5.randrange(1 << 30), r5.randrange(1 << 30)])
+            out.append(it)
+        intents = out
     cfg = {
         'nconn': nconn,
         'sides': [rng.choice(['client', 'server']) for _ in range(nconn)],
